@@ -569,6 +569,12 @@ func Files() []FileSpec {
 				m.field("os", 1<<29-3, Opt, kindByName("string"), fopt{oneof: oi})
 				m.field("om", 1<<29-2, Opt, kindByName("message"), fopt{typeName: "Big", oneof: oi})
 				m.field("last", 1<<29-1, Rep, kindByName("bool"), fopt{packed: tr(false)})
+				// two packed enum lists (and an unpacked one) in one message: per-kind scratch storage shared between fields
+				b.enum("Tone", map[string]int32{"TONE_ZERO": 0, "TONE_ONE": 1, "TONE_BIG": 2147483647, "TONE_NEG": -1}, []string{"TONE_ZERO", "TONE_ONE", "TONE_BIG", "TONE_NEG"})
+				m.field("pe1", 3, Rep, kindByName("enum"), fopt{typeName: "Tone", packed: tr(true)})
+				m.field("pe2", 4, Rep, kindByName("enum"), fopt{typeName: "Tone", packed: tr(true)})
+				m.field("ue", 5, Rep, kindByName("enum"), fopt{typeName: "Tone", packed: tr(false)})
+				m.field("pi2", 6, Rep, kindByName("int32"), fopt{packed: tr(true)})
 			}})
 	}
 	// "import public": app -> api -(public)-> types. The app file uses types of a file it does not import itself, and that
@@ -704,6 +710,23 @@ func Files() []FileSpec {
 			// packages that NO regular field of the file refers to: only the extensions need the import
 			sc.m.Extension = append(sc.m.Extension, mkField(b, "x_em", 102, Opt, M, fopt{typeName: wkt("Empty"), extendee: "Extendable"}))
 			sc.m.Extension = append(sc.m.Extension, mkField(b, "x_nv", 103, Opt, kindByName("enum"), fopt{typeName: wkt("NullValue"), extendee: "Extendable"}))
+		}})
+	// a generated parent holding RUNTIME-ONLY proto2 children that have required fields (descriptor.proto's
+	// UninterpretedOption.NamePart: required name_part, required is_extension): required-field enforcement has to cross
+	// from the generated code into the runtime and back (singular, repeated, map value, oneof, one level further down)
+	out = append(out, FileSpec{Name: "p2desc", Syntax: "proto2", Only: []Runtime{GV2, GV1}, Ext: []string{"google/protobuf/descriptor.proto"},
+		Cells: "proto2: fields whose message type has required fields but no fast-marshal code (descriptor.proto)",
+		build: func(b *fb) {
+			M := kindByName("message")
+			np := ".google.protobuf.UninterpretedOption.NamePart"
+			h := b.msg("Holder")
+			h.field("one", 1, Opt, M, fopt{typeName: np})
+			h.field("many", 2, Rep, M, fopt{typeName: np})
+			h.mapField("m", 3, kindByName("string"), M, np)
+			oi := h.oneofDecl("pick")
+			h.field("o", 4, Opt, M, fopt{typeName: np, oneof: oi})
+			h.field("x", 5, Opt, kindByName("int32"), fopt{})
+			h.field("uo", 6, Opt, M, fopt{typeName: ".google.protobuf.UninterpretedOption"})
 		}})
 	out = append(out, FileSpec{Name: "p2extreq", Syntax: "proto2", Cells: "proto2: an extension whose value is a message with a required field (required-field enforcement in the extension position)",
 		build: func(b *fb) {
